@@ -1,4 +1,4 @@
-import TexelVerif.Conc.StepG4e
+import TexelVerif.Conc.StepG6
 /-! # C10 — search control always terminates with exactly one result
 
 Model: `Conc/Model.lean` (`step`), threads = protocol thread, engine thread (root communicator `r`)
@@ -76,23 +76,25 @@ theorem ack_never_dropped {r : Fin n} {s : St n} (h : Reach r s) (hr : inRound s
 
 /-! ## quiescence when the root has all acknowledgements -/
 
-/-- **Proven part.** When the root communicator has all acknowledgements (`hasStopAck()`) and the engine thread
-    is not inside a search (`actR`: between `sendInitSearch` and `sendStopSearch`), then
+/-- **Quiescence.** When the root communicator has all acknowledgements (`hasStopAck()`) and the engine thread is
+    not inside a search (`actR`: between `sendInitSearch` and `sendStopSearch`), then
     (1) nobody in the tree is inside a stop round;
     (2) on every edge no STOP is queued or about to be sent and no STOP_ACK is queued or about to be sent;
-    (3) every helper is idle: `jobId = -1`, not inside `doSearch`, no START_SEARCH queued or about to be forwarded.
-    **Full statement (not yet proven):** in addition no REPORT_RESULT and no INIT_SEARCH is queued or pending
-    anywhere.  Missing: the FIFO-order invariant "in a queue no report of a child follows that child's ack"
-    (and the analogous one for INIT before STOP). -/
-theorem quiescent_at_ack_partial {r : Fin n} {s : St n} (h : Reach r s) (hr : inRound s r = false) (ha : actR s r = false) :
+    (3) every helper is idle: `jobId = -1`, not inside `doSearch`, no START_SEARCH queued or about to be forwarded;
+    (4) no REPORT_RESULT is queued or about to be sent anywhere.
+    (INIT_SEARCH, which carries no job, is not covered: see `notes/C10.md`.) -/
+theorem quiescent_at_ack {r : Fin n} {s : St n} (h : Reach r s) (hr : inRound s r = false) (ha : actR s r = false) :
     (∀ v, s.alive v = true → inRound s v = false) ∧
     (∀ p c, isChild s p c = true →
       cStop (s.q c) = 0 ∧ pStop (s.out p) c = 0 ∧ cAck (s.q p) c = 0 ∧ pAck (s.out c) p c = 0) ∧
     (∀ v, s.alive v = true → v ≠ r →
-      s.jobId v = none ∧ isSearch (s.pc v) = false ∧ hasStart (s.q v) = false ∧ hasPStart (s.out v) = false) := by
+      s.jobId v = none ∧ isSearch (s.pc v) = false ∧ hasStart (s.q v) = false ∧ hasPStart (s.out v) = false) ∧
+    (∀ v src e j, s.alive v = true → Cmd.report src e j ∉ s.q v) ∧
+    (∀ v t src e j, s.alive v = true → Out.enq t (Cmd.report src e j) ∉ s.out v) := by
   have h1 := reach_G1 h
-  refine ⟨h1.quiescent hr, fun p c hc => ?_, fun v hv hvr => ?_⟩
-  · have := h1.quiescent_edge hr hc
+  have hc := (reach_G6 h).idle_clean h1 (reach_G4 h) hr ha
+  refine ⟨h1.quiescent hr, fun p c hc' => ?_, fun v hv hvr => ?_, hc.2.2.1, hc.2.2.2.1⟩
+  · have := h1.quiescent_edge hr hc'
     exact ⟨this.1, this.2.1, this.2.2.2.1, this.2.2.2.2⟩
   · have := (reach_G4 h).idle h1 hr ha v hv hvr
     unfold act at this
@@ -120,7 +122,7 @@ theorem helpers_idle_in_main_loop {r : Fin n} {s : St n} (h : Reach r s) (hm : m
     · cases hp : s.pc r <;> simp [hp, mainLoopPc] at e <;> rfl
     · rw [e]; rfl
     · rw [e]; rfl
-  exact (quiescent_at_ack_partial h hnr hna).2.2 v hv hvr
+  exact (quiescent_at_ack h hnr hna).2.2.1 v hv hvr
 
 /-- A new START reaches a helper only outside a stop round, so the purge in `doSendStartSearch` never removes
     a STOP that somebody is counting on. -/
@@ -130,20 +132,32 @@ theorem start_outside_round {r : Fin n} {s : St n} (h : Reach r s) (v : Fin n) (
 
 /-! ## results -/
 
-/-- **Proven part** (holds by the handler's guard in the model, which the acceptor checks against every
-    `RESULT_FWD` / `RESULT_DROP` / `RESULT_TAKE` event of the implementation): a helper forwards a
-    REPORT_RESULT to its parent only if it has not reported for its current job yet and the job id is its
-    current one.
-    **Full statement (not yet proven):** a REPORT_RESULT consumed by the engine thread as the result of its
-    current job carries the epoch of the current search (no result of an earlier `go` can be in flight).
-    Missing: the activity invariant named at `quiescent_at_ack_partial`. -/
-theorem stale_results_ignored_partial (s : St n) (v src : Fin n) (e j : Nat) :
+/-- **Stale results are ignored / cannot exist.**  Every START_SEARCH and every REPORT_RESULT that is queued or about to be
+    sent anywhere, and every job a helper is working on, carries the epoch of the current search (the epoch is incremented
+    by every `go`; when it is incremented nothing tagged exists, by `quiescent_at_ack`).  In particular a REPORT_RESULT the
+    engine thread finds in its queue while searching belongs to the current search, so comparing the job id (which restarts
+    at 1 in every search) is enough to attribute it to the right job. -/
+theorem stale_results_ignored {r : Fin n} {s : St n} (h : Reach r s) :
+    (∀ v src e j, s.alive v = true → Cmd.report src e j ∈ s.q v → e = s.epoch) ∧
+    (∀ v t src e j, s.alive v = true → Out.enq t (Cmd.report src e j) ∈ s.out v → e = s.epoch) ∧
+    (∀ v e j, s.alive v = true → Cmd.start e j ∈ s.q v → e = s.epoch) ∧
+    (∀ v t e j, s.alive v = true → Out.enq t (Cmd.start e j) ∈ s.out v → e = s.epoch) ∧
+    (∀ v, s.alive v = true → v ≠ r → s.jobId v ≠ none → s.jobEp v = s.epoch) :=
+  ⟨(reach_G6 h).e3, (reach_G6 h).e4, (reach_G6 h).e1, (reach_G6 h).e2, (reach_G6 h).e5⟩
+
+/-- a helper forwards a REPORT_RESULT to its parent only if it has not reported for its current job yet and the job id
+    is its current one (handler guard; the acceptor checks every `RESULT_FWD / RESULT_DROP / RESULT_USED` against it) -/
+theorem report_forward_guard (s : St n) (v src : Fin n) (e j : Nat) :
     (handleW s v (.report src e j)).out v ≠ s.out v → s.hasResult v = false ∧ s.jobId v = some j := by
   intro hne
   simp only [handleW] at hne
   split at hne
   · rename_i hg; exact hg
   · exact absurd rfl hne
+
+/-- in a queue no REPORT_RESULT of a child follows a STOP_ACK of the same child (FIFO per sender) -/
+theorem report_before_ack {r : Fin n} {s : St n} (h : Reach r s) (p : Fin n) (hp : s.alive p = true) : okOrder (s.q p) = true :=
+  (reach_G6 h).ord p hp
 
 /-! ## exactly one best move per `go` -/
 
